@@ -590,6 +590,23 @@ func ArgUint(v Violation, k string) uint64 {
 	return 0
 }
 
+// ExportViolations returns the recorded witnesses (used by cold-start children to hand them to the parent).
+func (c *Ctx) ExportViolations() ([]Violation, int64, int64) {
+	c.mu.Lock()
+	defer c.mu.Unlock()
+	return append([]Violation(nil), c.violations...), c.nviol, c.evals
+}
+
+// ImportViolation records a violation observed in a child process.
+func (c *Ctx) ImportViolation(v Violation) { v.Seed, v.Tier = c.Seed, c.Tier; c.fail(v) }
+
+// AddEvals adds executions performed in child processes.
+func (c *Ctx) AddEvals(n int64) {
+	c.mu.Lock()
+	c.evals += n
+	c.mu.Unlock()
+}
+
 // ReplayCtx returns a context that records violations in memory only; replayers
 // re-run one case through the normal monitor and print Report.
 func ReplayCtx(prop string) *Ctx {
